@@ -198,9 +198,6 @@ func scenario(s spec) *engine.Scenario {
 			if o.preGot != o.preWant {
 				add("preexisting-connection-broken{"+s.Pre+"}", "the connection opened before the reload received %q, want %q (client error %q)", o.preGot, o.preWant, o.preErr)
 			}
-			if len(o.final) > 0 {
-				add("bound-after-stop", "%v", o.final)
-			}
 		}
 		obs := fmt.Sprint(o.probe.Status, o.probe.Served, o.udp.Forwarded, o.preGot == o.preWant, len(o.handled))
 		return obs, true, fs
